@@ -1,4 +1,4 @@
-import D2P.Model.Walk
+import D2P.Proofs.Flush
 import D2P.Model.Merge
 /-!
 # C06 — content-free markup is invisible to the walk
@@ -45,14 +45,16 @@ theorem openStep_inert (cfg : PartCfg) (s : DC) (x : Xml) (c : Bool) (roots : Li
     simp only [inertMembers, List.mem_cons, List.mem_nil_iff, or_false] at this
     rcases this with rfl | rfl | rfl <;> (unfold openStep; rw [hm]; rfl)
 
-theorem closeStep_inert (cfg : PartCfg) (s : DC) (x : Xml) (hc : isContentTag x = false) : closeStep cfg s x = .ok s := by
+theorem closeStep_inert (cfg : PartCfg) (s : DC) (x : Xml) (hc : isContentTag x = false) (hd : elemDepth x = none) :
+    closeStep cfg s x = .ok s := by
+  rw [closeStep_depth_none cfg s x hd]
   unfold isContentTag at hc
   cases hm : tagMember x.ptag with
-  | none => unfold closeStep; rw [hm]; rfl
+  | none => unfold closeStepCore; rw [hm]; rfl
   | some m =>
     have := tagMember_contentless _ m hm hc
     simp only [inertMembers, List.mem_cons, List.mem_nil_iff, or_false] at this
-    rcases this with rfl | rfl | rfl <;> (unfold closeStep; rw [hm]; rfl)
+    rcases this with rfl | rfl | rfl <;> (unfold closeStepCore; rw [hm]; rfl)
 
 theorem paragraph_is_content : contentTagsL.contains paragraphTag = true := by decide +kernel
 theorem hyperlink_is_content : contentTagsL.contains hyperlinkTag = true := by decide +kernel
@@ -96,12 +98,13 @@ theorem walk_contentless (cfg : PartCfg) (num : Dict Str (List NumAttr)) :
       | true =>
         have e := beq_iff_eq.1 hb
         have := h.1; unfold isContentTag at this; rw [e, hyperlink_is_content] at this; cases this
-    simp only [walk, hd, DC.setCaret, pure, Except.pure, ok_bind, hl, Bool.false_eq_true, if_false]
+    have hd0 := hd
+    simp only [walk, hd, setCaretOpen_none, DC.setCaret, pure, Except.pure, ok_bind, hl, Bool.false_eq_true, if_false]
     rw [openStep_inert cfg s _ c [] h.1]
     simp only [ok_bind, if_true]
     rw [walkL_contentless cfg num ks h.2]
     simp only [ok_bind]
-    rw [closeStep_inert cfg s _ h.1]
+    rw [closeStep_inert cfg s _ h.1 hd0]
     rfl
   | .comment _ _, _, _, _ => rfl
   | .pi _, _, _, _ => rfl
